@@ -317,6 +317,15 @@ namespace Pistache::Http::Experimental
         if (!conn)
             throw std::runtime_error("Send request error");
 
+        // The connection may have been closed (the peer hung up) after the request
+        // was handed over; its descriptor number may already belong to another
+        // connection by now.
+        if (!conn->isConnected())
+        {
+            conn->handleError("Connection closed");
+            return;
+        }
+
         auto fd = conn->fd();
 
         ssize_t totalWritten = 0;
